@@ -1,9 +1,1464 @@
-//! C16 — (module under construction)
-use crate::report::{Coverage, Reporter};
-use serde_json::Value;
+//! C16 — transposition preserves text.
+//!
+//! Bounded-exhaustive enumeration of *worlds* (a pair or triple of texts sharing 1..3 fragments, linked
+//! by a simple or complex transposition, fragments listed and arranged in every order), crossed with
+//! every source range (and every ordered pair of ranges) of the source text, the form in which the source
+//! is given (annotation with id / without id / text selection set) and the `TransposeConfig` switches.
+//! Every case builds a fresh store, calls the real `Transposable::transpose`, adds the returned builders
+//! with `annotate_from_iter`, inspects the new annotations through the public API and transposes the
+//! result back. The oracle is plain interval arithmetic on the fragment lists.
+//!
+//! A failing case is *minimised* (drop a source range, drop the third side, drop a fragment, switch
+//! config flags off) while the symptom persists; the signature is computed from the minimal case, so
+//! that one defect does not produce one signature per configuration.
 
-pub fn run(_rep: &Reporter) -> Coverage {
-    Coverage::default()
+use crate::report::{Coverage, Reporter, Tier};
+use crate::util::{catch, char_slice, msg_class};
+use rayon::prelude::*;
+use serde_json::{json, Value};
+use stam::*;
+use std::collections::{BTreeMap, HashMap};
+use std::sync::atomic::{AtomicU64, Ordering};
+use std::sync::{Arc, Mutex};
+
+type R = (usize, usize);
+
+const TSET: &str = "https://w3id.org/stam/extensions/stam-transpose/";
+
+// ------------------------------------------------------------------------------------------------
+// case description
+// ------------------------------------------------------------------------------------------------
+
+#[derive(Clone, Debug, PartialEq, Eq)]
+pub struct Side {
+    pub text: String,
+    /// fragments in *listing* order: the i-th fragment of every side carries the same text
+    pub frags: Vec<R>,
 }
 
-pub fn replay(_rep: &Reporter, _case: &Value) {}
+#[derive(Clone, Debug, PartialEq, Eq)]
+pub struct World {
+    /// simple transposition (one DirectionalSelector of TextSelectors, one fragment per side) or
+    /// complex (one annotation per side, linked by a DirectionalSelector of AnnotationSelectors)
+    pub simple: bool,
+    pub sides: Vec<Side>,
+}
+
+#[derive(Clone, Copy, Debug, PartialEq, Eq)]
+pub enum Form {
+    /// source is an annotation with public id "src"
+    AnnId,
+    /// source is an annotation without public id
+    AnnNoId,
+    /// source is a ResultTextSelectionSet, no source id configured
+    TSet,
+    /// source is a ResultTextSelectionSet, `source_side_id` = a fresh id
+    TSetNewId,
+    /// source is a ResultTextSelectionSet equal to the text of the existing annotation "src";
+    /// `source_side_id = "src"`, `existing_source_side = true`
+    TSetExisting,
+}
+
+const FORMS: [Form; 5] = [Form::AnnId, Form::AnnNoId, Form::TSet, Form::TSetNewId, Form::TSetExisting];
+
+#[derive(Clone, Copy, Debug, PartialEq, Eq)]
+pub enum SideMode {
+    Auto,
+    /// `TranspositionSide::ByIndex(the side the source really is in)`
+    Index,
+    /// `TranspositionSide::ByIndex(the next side)`: the source is not in that side at all
+    WrongIndex,
+}
+
+const SIDEMODES: [SideMode; 3] = [SideMode::Auto, SideMode::Index, SideMode::WrongIndex];
+
+#[derive(Clone, Copy, Debug, PartialEq, Eq)]
+pub struct Cfg {
+    pub form: Form,
+    pub allow_simple: bool,
+    pub no_transposition: bool,
+    pub no_resegmentation: bool,
+    pub side: SideMode,
+}
+
+impl Cfg {
+    const BASE: Cfg = Cfg { form: Form::AnnId, allow_simple: false, no_transposition: false, no_resegmentation: false, side: SideMode::Auto };
+
+    fn name(&self) -> String {
+        let mut s = format!("{:?}", self.form);
+        if self.allow_simple {
+            s.push_str("+simple");
+        }
+        if self.no_transposition {
+            s.push_str("+notr");
+        }
+        if self.no_resegmentation {
+            s.push_str("+noreseg");
+        }
+        s.push_str(match self.side {
+            SideMode::Auto => "/auto",
+            SideMode::Index => "/idx",
+            SideMode::WrongIndex => "/wrongidx",
+        });
+        s
+    }
+    fn complexity(&self) -> u64 {
+        (self.form != Form::AnnId) as u64
+            + self.allow_simple as u64
+            + self.no_transposition as u64
+            + self.no_resegmentation as u64
+            + (self.side != SideMode::Auto) as u64
+    }
+    fn to_json(&self) -> Value {
+        json!({"form": format!("{:?}", self.form), "allow_simple": self.allow_simple, "no_transposition": self.no_transposition,
+               "no_resegmentation": self.no_resegmentation, "side": format!("{:?}", self.side)})
+    }
+    fn from_json(v: &Value) -> Option<Cfg> {
+        let f = v["form"].as_str()?;
+        let s = v["side"].as_str()?;
+        Some(Cfg {
+            form: *FORMS.iter().find(|x| format!("{:?}", x) == f)?,
+            allow_simple: v["allow_simple"].as_bool()?,
+            no_transposition: v["no_transposition"].as_bool()?,
+            no_resegmentation: v["no_resegmentation"].as_bool()?,
+            side: *SIDEMODES.iter().find(|x| format!("{:?}", x) == s)?,
+        })
+    }
+}
+
+#[derive(Clone, Debug)]
+pub struct Case {
+    pub world: World,
+    /// index of the side whose resource holds the source
+    pub src_side: usize,
+    /// source ranges (codepoints in the text of side `src_side`), in the order given to the library
+    pub source: Vec<R>,
+    pub cfg: Cfg,
+}
+
+impl Case {
+    fn to_json(&self) -> Value {
+        json!({
+            "simple": self.world.simple,
+            "sides": self.world.sides.iter().map(|s| json!({"text": s.text, "frags": s.frags})).collect::<Vec<_>>(),
+            "src_side": self.src_side,
+            "source": self.source,
+            "cfg": self.cfg.to_json(),
+        })
+    }
+    fn from_json(v: &Value) -> Option<Case> {
+        let ranges = |v: &Value| -> Option<Vec<R>> {
+            v.as_array()?.iter().map(|p| Some((p[0].as_u64()? as usize, p[1].as_u64()? as usize))).collect()
+        };
+        let mut sides = Vec::new();
+        for s in v["sides"].as_array()? {
+            sides.push(Side { text: s["text"].as_str()?.to_string(), frags: ranges(&s["frags"])? });
+        }
+        Some(Case {
+            world: World { simple: v["simple"].as_bool()?, sides },
+            src_side: v["src_side"].as_u64()? as usize,
+            source: ranges(&v["source"])?,
+            cfg: Cfg::from_json(&v["cfg"])?,
+        })
+    }
+    fn describe(&self) -> String {
+        let w = &self.world;
+        let sides: Vec<String> = w.sides.iter().map(|s| format!("{:?}{:?}", s.text, s.frags)).collect();
+        format!(
+            "{} transposition over sides [{}], source {:?} in side {} ({:?}), cfg {}",
+            if w.simple { "simple" } else { "complex" },
+            sides.join(" ; "),
+            self.source,
+            self.src_side,
+            self.source.iter().map(|r| char_slice(&w.sides[self.src_side].text, r.0, r.1)).collect::<Vec<_>>(),
+            self.cfg.name()
+        )
+    }
+    /// simplest first
+    fn ord(&self) -> u64 {
+        let w = &self.world;
+        let k = w.sides[0].frags.len() as u64;
+        let tl: u64 = w.sides.iter().map(|s| s.text.chars().count() as u64).sum();
+        let re: u64 = self.source.iter().map(|r| (r.0 + r.1) as u64).sum();
+        ((w.sides.len() as u64) << 44)
+            | (k << 40)
+            | ((self.source.len() as u64) << 36)
+            | (self.cfg.complexity() << 32)
+            | ((!w.simple as u64) << 31)
+            | ((self.src_side as u64) << 28)
+            | (tl.min(255) << 16)
+            | re.min(65535)
+    }
+}
+
+// ------------------------------------------------------------------------------------------------
+// the oracle: interval arithmetic on the fragment lists
+// ------------------------------------------------------------------------------------------------
+
+/// Split a non-empty source range at the fragment boundaries of its side. `None` = some codepoint of
+/// the range lies in no fragment (not covered). Result: (listing index of the fragment, piece).
+fn split(frags: &[R], src: R) -> Option<Vec<(usize, R)>> {
+    let mut p = src.0;
+    let mut out = Vec::new();
+    while p < src.1 {
+        let i = frags.iter().position(|f| f.0 <= p && p < f.1)?;
+        let e = src.1.min(frags[i].1);
+        out.push((i, (p, e)));
+        p = e;
+    }
+    Some(out)
+}
+
+#[derive(Clone, Debug, PartialEq)]
+enum Expect {
+    /// every codepoint of the source lies in a fragment of the side that is searched: must succeed.
+    /// Content: the source pieces (fragment index, piece) in order.
+    Covered(Vec<(usize, R)>),
+    /// some codepoint lies outside: must fail
+    Uncovered,
+    /// zero-width source: the documentation does not say whether it is "covered"
+    Unspecified,
+}
+
+fn expectation(case: &Case) -> Expect {
+    if case.cfg.side == SideMode::WrongIndex {
+        // the side that is named lies in a different resource: the source (of any width) is not covered by it
+        return Expect::Uncovered;
+    }
+    if case.source.iter().any(|r| r.0 == r.1) {
+        return Expect::Unspecified;
+    }
+    let frags = &case.world.sides[case.src_side].frags;
+    let mut all = Vec::new();
+    for r in &case.source {
+        match split(frags, *r) {
+            Some(p) => all.extend(p),
+            None => return Expect::Uncovered,
+        }
+    }
+    Expect::Covered(all)
+}
+
+fn flatten(rs: &[R]) -> Vec<usize> {
+    rs.iter().flat_map(|r| r.0..r.1).collect()
+}
+
+/// where the codepoints of the source pieces must end up in side `t`
+fn mapped_positions(world: &World, s: usize, t: usize, pieces: &[(usize, R)]) -> Vec<usize> {
+    let mut out = Vec::new();
+    for (i, (b, e)) in pieces {
+        let fs = world.sides[s].frags[*i];
+        let ft = world.sides[t].frags[*i];
+        for x in *b..*e {
+            out.push(ft.0 + (x - fs.0));
+        }
+    }
+    out
+}
+
+/// alignment class of one source range against the fragments of its side (listing order)
+fn align1(frags: &[R], r: R, coarse: bool) -> String {
+    if r.0 == r.1 {
+        return if frags.iter().any(|f| f.0 < r.0 && r.0 < f.1) {
+            "zw-in".into()
+        } else if frags.iter().any(|f| f.0 <= r.0 && r.0 <= f.1) {
+            "zw-edge".into()
+        } else {
+            "zw-out".into()
+        };
+    }
+    match split(frags, r) {
+        Some(p) if p.len() == 1 => {
+            if coarse {
+                return "in".into();
+            }
+            let f = frags[p[0].0];
+            if r == f {
+                "eq".into()
+            } else if r.0 == f.0 {
+                "in-b".into()
+            } else if r.1 == f.1 {
+                "in-e".into()
+            } else {
+                "in-m".into()
+            }
+        }
+        Some(p) => {
+            let fwd = p.windows(2).all(|w| w[0].0 < w[1].0);
+            format!("span{}-{}", p.len(), if fwd { "fwd" } else { "rev" })
+        }
+        None => {
+            let covered = |x: usize| frags.iter().any(|f| f.0 <= x && x < f.1);
+            if !(r.0..r.1).any(covered) {
+                "out".into()
+            } else if coarse {
+                "part".into()
+            } else {
+                format!(
+                    "part-{}{}",
+                    if covered(r.0) { 'c' } else { 'u' },
+                    if covered(r.1 - 1) { 'c' } else { 'u' }
+                )
+            }
+        }
+    }
+}
+
+fn align(case: &Case) -> String {
+    let frags = &case.world.sides[case.src_side].frags;
+    match case.source.len() {
+        1 => align1(frags, case.source[0], false),
+        _ => {
+            let cls: Vec<String> = case.source.iter().map(|r| align1(frags, *r, true)).collect();
+            let (a, b) = (case.source[0], case.source[1]);
+            let rel = if a.1 <= b.0 {
+                "asc"
+            } else if b.1 <= a.0 {
+                "desc"
+            } else {
+                "ovl"
+            };
+            format!("{}:{}", cls.join(","), rel)
+        }
+    }
+}
+
+fn shape(case: &Case) -> String {
+    let w = &case.world;
+    let n = w.sides.len();
+    if w.simple {
+        return format!("simple{}", n);
+    }
+    let frags = &w.sides[case.src_side].frags;
+    let k = frags.len();
+    if k == 1 {
+        format!("complex{}k1", n)
+    } else {
+        let sorted = frags.windows(2).all(|w| w[0].0 < w[1].0);
+        format!("complex{}k{}{}", n, k, if sorted { "s" } else { "u" })
+    }
+}
+
+fn err_code(msg: &str) -> String {
+    let table = [
+        ("Not all source fragments were found", "not-all-found"),
+        ("source side could not be identified", "no-source-side"),
+        ("source side has 0 fragments", "zero-fragments"),
+        ("were covered by the simple transposition", "simple-not-covered"),
+        ("Expected existing source annotation", "expected-existing-source"),
+        ("Expected two sides", "fewer-than-two-sides"),
+        ("is not a valid transposition", "via-invalid"),
+        ("references no text or text in multiple resources", "source-no-text"),
+    ];
+    for (pat, code) in table {
+        if msg.contains(pat) {
+            return code.to_string();
+        }
+    }
+    // any other error: the variant name (text before the first colon), without blanks
+    let m = msg.strip_prefix("[StamError] ").unwrap_or(msg);
+    let head = m.split(':').next().unwrap_or(m);
+    let mut c: String = msg_class(head).chars().map(|ch| if ch.is_whitespace() { '_' } else { ch }).collect();
+    if c.len() > 48 {
+        let mut cut = 48;
+        while !c.is_char_boundary(cut) {
+            cut -= 1;
+        }
+        c.truncate(cut);
+    }
+    c
+}
+
+/// panic messages carry no blanks in signatures either
+fn panic_code(msg: &str) -> String {
+    let mut c: String = msg_class(msg).chars().map(|ch| if ch.is_whitespace() { '_' } else { ch }).collect();
+    if c.len() > 80 {
+        let mut cut = 80;
+        while !c.is_char_boundary(cut) {
+            cut -= 1;
+        }
+        c.truncate(cut);
+    }
+    c
+}
+
+// ------------------------------------------------------------------------------------------------
+// evaluation of one case on the real library
+// ------------------------------------------------------------------------------------------------
+
+fn rid(i: usize) -> String {
+    format!("r{}", i)
+}
+
+fn tsel_builder(res: &str, r: R) -> SelectorBuilder<'static> {
+    SelectorBuilder::textselector(res.to_string(), Offset::simple(r.0, r.1))
+}
+
+fn target_builder(res: &str, rs: &[R]) -> SelectorBuilder<'static> {
+    if rs.len() == 1 {
+        tsel_builder(res, rs[0])
+    } else {
+        SelectorBuilder::DirectionalSelector(rs.iter().map(|r| tsel_builder(res, *r)).collect())
+    }
+}
+
+fn build_store(w: &World) -> Result<AnnotationStore, StamError> {
+    let mut store = AnnotationStore::new(Config::default());
+    for (i, s) in w.sides.iter().enumerate() {
+        store.add_resource(TextResourceBuilder::new().with_id(rid(i)).with_text(s.text.clone()))?;
+    }
+    let n = w.sides.len();
+    if w.simple {
+        let sels: Vec<SelectorBuilder<'static>> =
+            w.sides.iter().enumerate().map(|(i, s)| tsel_builder(&rid(i), s.frags[0])).collect();
+        store.annotate(
+            AnnotationBuilder::new()
+                .with_id("VIA")
+                .with_target(SelectorBuilder::DirectionalSelector(sels))
+                .with_data(TSET, "Transposition", DataValue::Null),
+        )?;
+    } else {
+        for (i, s) in w.sides.iter().enumerate() {
+            store.annotate(AnnotationBuilder::new().with_id(format!("A{}", i)).with_target(target_builder(&rid(i), &s.frags)))?;
+        }
+        let sels: Vec<SelectorBuilder<'static>> =
+            (0..n).map(|i| SelectorBuilder::annotationselector(format!("A{}", i), None)).collect();
+        store.annotate(
+            AnnotationBuilder::new()
+                .with_id("VIA")
+                .with_target(SelectorBuilder::DirectionalSelector(sels))
+                .with_data(TSET, "Transposition", DataValue::Null),
+        )?;
+    }
+    Ok(store)
+}
+
+#[derive(Clone, Debug)]
+struct Piece {
+    res: String,
+    r: R,
+    text: String,
+}
+
+#[derive(Clone, Debug)]
+struct Ann {
+    handle: AnnotationHandle,
+    id: Option<String>,
+    /// 0 = none, 1 = Transposition, 2 = Resegmentation
+    marker: u8,
+    pieces: Vec<Piece>,
+    subs: Vec<AnnotationHandle>,
+    joined: String,
+}
+
+fn inspect(store: &AnnotationStore, h: AnnotationHandle) -> Option<Ann> {
+    let a = store.annotation(h)?;
+    let mut marker = 0;
+    for d in a.data() {
+        if d.set().id() == Some(TSET) {
+            match d.key().id() {
+                Some("Transposition") => marker = 1,
+                Some("Resegmentation") => marker = 2,
+                _ => {}
+            }
+        }
+    }
+    let pieces: Vec<Piece> = a
+        .textselections()
+        .map(|t| Piece { res: t.resource().id().unwrap_or("?").to_string(), r: (t.begin(), t.end()), text: t.text().to_string() })
+        .collect();
+    let subs: Vec<AnnotationHandle> = a.annotations_in_targets(AnnotationDepth::One).map(|x| x.handle()).collect();
+    let joined = a.text_join("");
+    Some(Ann { handle: h, id: a.id().map(|s| s.to_string()), marker, pieces, subs, joined })
+}
+
+#[derive(Default, Debug)]
+pub struct Outcome {
+    /// (symptom code, human detail)
+    pub symptoms: Vec<(String, String)>,
+    /// library calls made (transpose / annotate_from_iter)
+    pub calls: u64,
+    /// transpose returned Ok and all obligations of the success path were evaluated
+    pub ok_path: bool,
+    /// transpose returned Err
+    pub rejected: bool,
+    /// human-readable trace for replay
+    pub trace: Vec<String>,
+    pub verbose: bool,
+}
+
+impl Outcome {
+    fn sym(&mut self, code: impl Into<String>, detail: impl Into<String>) {
+        self.symptoms.push((code.into(), detail.into()));
+    }
+    fn note(&mut self, f: impl FnOnce() -> String) {
+        if self.verbose {
+            self.trace.push(f());
+        }
+    }
+}
+
+fn tconfig(case: &Case) -> TransposeConfig {
+    let n = case.world.sides.len();
+    let s = case.src_side;
+    let c = &case.cfg;
+    TransposeConfig {
+        source_side: match c.side {
+            SideMode::Auto => TranspositionSide::Auto,
+            SideMode::Index => TranspositionSide::ByIndex(s),
+            SideMode::WrongIndex => TranspositionSide::ByIndex((s + 1) % n),
+        },
+        allow_simple: c.allow_simple,
+        no_transposition: c.no_transposition,
+        no_resegmentation: c.no_resegmentation,
+        transposition_id: Some("NT".to_string()),
+        resegmentation_id: Some("NR".to_string()),
+        source_side_id: match c.form {
+            Form::TSetNewId => Some("S".to_string()),
+            Form::TSetExisting => Some("src".to_string()),
+            _ => None,
+        },
+        existing_source_side: c.form == Form::TSetExisting,
+        target_side_ids: (0..n - 1).map(|j| format!("T{}", j)).collect(),
+        debug: false,
+    }
+}
+
+type TResult = Result<Result<Vec<AnnotationBuilder<'static>>, StamError>, String>;
+
+fn tset_of<'s>(store: &'s AnnotationStore, res: &str, ranges: &[R]) -> Result<ResultTextSelectionSet<'s>, String> {
+    let resource = store.resource(res).ok_or_else(|| "resource not found".to_string())?;
+    let mut v = Vec::new();
+    for r in ranges {
+        v.push(resource.textselection(&Offset::simple(r.0, r.1)).map_err(|e| e.to_string())?);
+    }
+    Ok(v.into_iter().collect())
+}
+
+pub fn evaluate(case: &Case, verbose: bool) -> Outcome {
+    let mut out = Outcome::default();
+    out.verbose = verbose;
+    let w = &case.world;
+    let n = w.sides.len();
+    let s = case.src_side;
+    let cfg = &case.cfg;
+    // --- build (harness side; a failure here is reported, never hidden)
+    let mut store = match catch(|| build_store(w)) {
+        Ok(Ok(st)) => st,
+        Ok(Err(e)) => {
+            out.sym("harness:build-failed", e.to_string());
+            return out;
+        }
+        Err(p) => {
+            out.sym("harness:build-panicked", p);
+            return out;
+        }
+    };
+    let mut src_handle: Option<AnnotationHandle> = None;
+    if matches!(cfg.form, Form::AnnId | Form::AnnNoId | Form::TSetExisting) {
+        let mut b = AnnotationBuilder::new().with_target(target_builder(&rid(s), &case.source));
+        if cfg.form != Form::AnnNoId {
+            b = b.with_id("src");
+        }
+        match catch(|| store.annotate(b)) {
+            Ok(Ok(h)) => src_handle = Some(h),
+            Ok(Err(e)) => {
+                out.sym("harness:source-annotate-failed", e.to_string());
+                return out;
+            }
+            Err(p) => {
+                out.sym("harness:source-annotate-panicked", p);
+                return out;
+            }
+        }
+    }
+    // full internal dump for the base configuration, item counts for all others
+    let full_dump = *cfg == Cfg::BASE;
+    let snapshot = |st: &AnnotationStore| -> String {
+        if full_dump {
+            st.verif_dump()
+        } else {
+            format!("{}/{}/{}", st.annotations_len(), st.resources_len(), st.datasets_len())
+        }
+    };
+    let dump0 = snapshot(&store);
+    // --- the call under test
+    let res: TResult = {
+        let st = &store;
+        let tc = tconfig(case);
+        match st.annotation("VIA") {
+            None => Err("harness: VIA not found".to_string()),
+            Some(via) => match cfg.form {
+                Form::AnnId | Form::AnnNoId => match st.annotation(src_handle.unwrap()) {
+                    Some(src) => catch(|| src.transpose(&via, tc)),
+                    None => Err("harness: source annotation not found".to_string()),
+                },
+                _ => match catch(|| tset_of(st, &rid(s), &case.source)) {
+                    Ok(Ok(tset)) => catch(|| tset.transpose(&via, tc)),
+                    Ok(Err(e)) => Err(format!("harness: cannot select source: {}", e)),
+                    Err(p) => Err(format!("harness: selecting source panicked: {}", p)),
+                },
+            },
+        }
+    };
+    out.calls += 1;
+    if snapshot(&store) != dump0 {
+        out.sym("transpose-changed-store", "the store dump differs after transpose() although it takes &self");
+    }
+    let exp = expectation(case);
+    let builders = match res {
+        Err(p) => {
+            out.note(|| format!("transpose panicked: {}", p));
+            out.sym(format!("panic:{}", panic_code(&p)), format!("transpose panicked: {}", p));
+            return out;
+        }
+        Ok(Err(e)) => {
+            out.rejected = true;
+            out.note(|| format!("transpose -> Err({})", e));
+            if let Expect::Covered(p) = &exp {
+                out.sym(
+                    format!("covered-but-rejected:{}", err_code(&e.to_string())),
+                    format!("every codepoint of the source lies in a fragment (pieces {:?}) but transpose failed: {}", p, e),
+                );
+            }
+            return out;
+        }
+        Ok(Ok(b)) => b,
+    };
+    out.note(|| format!("transpose -> Ok({} builders)", builders.len()));
+    if exp == Expect::Uncovered {
+        out.sym(
+            "uncovered-but-accepted",
+            format!("part of the source lies outside the fragments of the searched side, yet transpose returned Ok with {} builders", builders.len()),
+        );
+        return out;
+    }
+    // --- add the returned annotations
+    let handles = match catch(|| store.annotate_from_iter(builders)) {
+        Err(p) => {
+            out.calls += 1;
+            out.sym(format!("annotate-panic:{}", panic_code(&p)), format!("annotate_from_iter panicked: {}", p));
+            return out;
+        }
+        Ok(Err(e)) => {
+            out.calls += 1;
+            out.sym(format!("annotate-failed:{}", err_code(&e.to_string())), format!("annotate_from_iter failed: {}", e));
+            return out;
+        }
+        Ok(Ok(h)) => h,
+    };
+    out.calls += 1;
+    // --- inspect through the public API (may panic on broken offsets)
+    let inspected = catch(|| {
+        let anns: Vec<Option<Ann>> = handles.iter().map(|h| inspect(&store, *h)).collect();
+        let mut subs: BTreeMap<usize, Ann> = BTreeMap::new();
+        for a in anns.iter().flatten() {
+            if a.marker == 1 {
+                for h in &a.subs {
+                    if let Some(x) = inspect(&store, *h) {
+                        subs.insert(h.as_usize(), x);
+                    }
+                }
+            }
+        }
+        (anns, subs)
+    });
+    let (anns, subs) = match inspected {
+        Ok(x) => x,
+        Err(p) => {
+            out.sym(format!("inspect-panic:{}", panic_code(&p)), format!("reading the new annotations panicked: {}", p));
+            return out;
+        }
+    };
+    if anns.iter().any(|a| a.is_none()) {
+        out.sym("returned-handle-dangling", "a handle returned by annotate_from_iter does not resolve");
+        return out;
+    }
+    let anns: Vec<Ann> = anns.into_iter().flatten().collect();
+    for a in &anns {
+        out.note(|| {
+            format!(
+                "new annotation id={:?} marker={} pieces={:?} targets={:?}",
+                a.id,
+                a.marker,
+                a.pieces.iter().map(|p| (p.res.as_str(), p.r, p.text.as_str())).collect::<Vec<_>>(),
+                a.subs.iter().map(|h| h.as_usize()).collect::<Vec<_>>()
+            )
+        });
+    }
+    // sides of the result: (annotation handle if the side is an annotation, pieces, joined text)
+    let mut sides: Vec<(Option<AnnotationHandle>, Vec<Piece>, String)> = Vec::new();
+    let mut new_tr: Option<&Ann> = None;
+    if !cfg.no_transposition {
+        let trs: Vec<&Ann> = anns.iter().filter(|a| a.marker == 1).collect();
+        if trs.len() != 1 || trs[0].id.as_deref() != Some("NT") {
+            out.sym(
+                "no-new-transposition",
+                format!("expected exactly one new annotation marked Transposition with id NT, found {:?}", trs.iter().map(|a| a.id.clone()).collect::<Vec<_>>()),
+            );
+            return out;
+        }
+        let t = trs[0];
+        new_tr = Some(t);
+        if t.subs.is_empty() {
+            for p in &t.pieces {
+                sides.push((None, vec![p.clone()], p.text.clone()));
+            }
+        } else {
+            for h in &t.subs {
+                match subs.get(&h.as_usize()) {
+                    Some(a) => sides.push((Some(*h), a.pieces.clone(), a.joined.clone())),
+                    None => {
+                        out.sym("side-unresolvable", "a side of the new transposition does not resolve");
+                        return out;
+                    }
+                }
+            }
+        }
+    } else {
+        for a in anns.iter().filter(|a| a.marker == 0) {
+            sides.push((Some(a.handle), a.pieces.clone(), a.joined.clone()));
+        }
+        if !sides.iter().any(|sd| sd.1.iter().all(|p| p.res == rid(s)) && !sd.1.is_empty()) {
+            // no copy / resegmentation of the source was returned: the source itself is the source side
+            let pieces: Vec<Piece> = case
+                .source
+                .iter()
+                .map(|r| Piece { res: rid(s), r: *r, text: char_slice(&w.sides[s].text, r.0, r.1) })
+                .collect();
+            let joined = pieces.iter().map(|p| p.text.as_str()).collect::<String>();
+            sides.push((None, pieces, joined));
+        }
+    }
+    // one side per resource of the transposition that was used
+    let mut by_side: Vec<Option<usize>> = vec![None; n];
+    for (j, sd) in sides.iter().enumerate() {
+        if sd.1.is_empty() {
+            out.sym("side-without-text", format!("side #{} of the result selects no text", j));
+            return out;
+        }
+        let res = sd.1[0].res.clone();
+        if sd.1.iter().any(|p| p.res != res) {
+            out.sym("side-mixed-resources", format!("side #{} of the result selects text in several resources", j));
+            return out;
+        }
+        match (0..n).find(|i| rid(*i) == res) {
+            Some(i) if by_side[i].is_none() => by_side[i] = Some(j),
+            _ => {
+                out.sym("sides-mismatch", format!("the result has two sides in resource {} (or a side in an unknown resource)", res));
+                return out;
+            }
+        }
+    }
+    if by_side.iter().any(|x| x.is_none()) {
+        out.sym(
+            "sides-mismatch",
+            format!("the result has no side in resource(s) {:?}", (0..n).filter(|i| by_side[*i].is_none()).map(rid).collect::<Vec<_>>()),
+        );
+        return out;
+    }
+    let src_pieces: Vec<Piece> = sides[by_side[s].unwrap()].1.clone();
+    let src_ranges: Vec<R> = src_pieces.iter().map(|p| p.r).collect();
+    let zw = exp == Expect::Unspecified;
+    if zw {
+        if src_ranges != case.source {
+            out.sym("source-side-offsets", format!("source side of the result selects {:?}, the source was {:?}", src_ranges, case.source));
+        }
+    } else if flatten(&src_ranges) != flatten(&case.source) {
+        out.sym(
+            "source-side-offsets",
+            format!("source side of the result selects {:?}, which does not cover the codepoints of the source {:?} in order", src_ranges, case.source),
+        );
+    }
+    let source_side_ok = out.symptoms.is_empty();
+    for t in 0..n {
+        if t == s || !source_side_ok {
+            continue; // the other sides are derived from the source side: one report per root cause
+        }
+        let tp = &sides[by_side[t].unwrap()].1;
+        let tjoined = &sides[by_side[t].unwrap()].2;
+        let sjoined = &sides[by_side[s].unwrap()].2;
+        let before = out.symptoms.len();
+        if tp.len() != src_pieces.len() {
+            out.sym(
+                "piece-count",
+                format!("side {} has {} pieces {:?} but the source side has {} pieces {:?}", t, tp.len(), tp.iter().map(|p| p.r).collect::<Vec<_>>(), src_pieces.len(), src_ranges),
+            );
+        } else if let Some(j) = (0..tp.len()).find(|j| tp[*j].text != src_pieces[*j].text) {
+            out.sym(
+                "target-text",
+                format!("piece #{} of side {} is {:?} {:?} but the source piece is {:?} {:?}", j, t, tp[j].r, tp[j].text, src_pieces[j].r, src_pieces[j].text),
+            );
+        }
+        if out.symptoms.len() == before && tjoined != sjoined {
+            out.sym("sides-text-differ", format!("text_join of side {} is {:?}, of the source side {:?}", t, tjoined, sjoined));
+        }
+        if out.symptoms.len() > before {
+            continue; // one report per side: the text obligations come first, the offsets are derived
+        }
+        if let Expect::Covered(pieces) = &exp {
+            let want = mapped_positions(w, s, t, pieces);
+            let got = flatten(&tp.iter().map(|p| p.r).collect::<Vec<_>>());
+            if want != got {
+                out.sym(
+                    "target-offsets",
+                    format!("side {} selects codepoints {:?} ({:?}); the fragments map the source to codepoints {:?}", t, got, tp.iter().map(|p| p.r).collect::<Vec<_>>(), want),
+                );
+            }
+        } else if zw && case.source.len() == 1 {
+            // a zero-width source strictly inside a fragment has exactly one image
+            let p = case.source[0].0;
+            if let Some(i) = w.sides[s].frags.iter().position(|f| f.0 < p && p < f.1) {
+                let q = w.sides[t].frags[i].0 + (p - w.sides[s].frags[i].0);
+                let got: Vec<R> = tp.iter().map(|p| p.r).collect();
+                if got != vec![(q, q)] {
+                    out.sym("target-offsets", format!("side {} selects {:?}; the zero-width source at {} maps to ({},{})", t, got, p, q, q));
+                }
+            }
+        }
+    }
+    out.ok_path = true;
+    if !out.symptoms.is_empty() || zw {
+        return out;
+    }
+    // --- transpose back over the new transposition
+    if let Some(t_ann) = new_tr {
+        let complex = !t_ann.subs.is_empty();
+        for t in 0..n {
+            if t == s {
+                continue;
+            }
+            let (side_handle, side_pieces, _) = sides[by_side[t].unwrap()].clone();
+            let tc = TransposeConfig {
+                transposition_id: Some(format!("BT{}", t)),
+                resegmentation_id: Some(format!("BR{}", t)),
+                target_side_ids: (0..n - 1).map(|j| format!("B{}x{}", t, j)).collect(),
+                ..Default::default()
+            };
+            let res: TResult = {
+                let st = &store;
+                match st.annotation("NT") {
+                    None => Err("harness: NT not found".to_string()),
+                    Some(via2) => {
+                        if complex {
+                            match st.annotation(side_handle.unwrap()) {
+                                Some(src) => catch(|| src.transpose(&via2, tc)),
+                                None => Err("harness: side annotation not found".to_string()),
+                            }
+                        } else {
+                            let rs: Vec<R> = side_pieces.iter().map(|p| p.r).collect();
+                            match catch(|| tset_of(st, &rid(t), &rs)) {
+                                Ok(Ok(tset)) => catch(|| tset.transpose(&via2, tc)),
+                                Ok(Err(e)) => Err(format!("harness: cannot select: {}", e)),
+                                Err(p) => Err(format!("harness: selecting panicked: {}", p)),
+                            }
+                        }
+                    }
+                }
+            };
+            out.calls += 1;
+            let b = match res {
+                Err(p) => {
+                    out.sym(format!("back-panic:{}", panic_code(&p)), format!("transposing side {} back over NT panicked: {}", t, p));
+                    continue;
+                }
+                Ok(Err(e)) => {
+                    out.sym(format!("back-rejected:{}", err_code(&e.to_string())), format!("transposing side {} {:?} back over NT failed: {}", t, side_pieces.iter().map(|p| p.r).collect::<Vec<_>>(), e));
+                    continue;
+                }
+                Ok(Ok(b)) => b,
+            };
+            out.calls += 1;
+            let hs = match catch(|| store.annotate_from_iter(b)) {
+                Err(p) => {
+                    out.sym(format!("back-annotate-panic:{}", panic_code(&p)), format!("adding the back-transposed annotations panicked: {}", p));
+                    continue;
+                }
+                Ok(Err(e)) => {
+                    out.sym(format!("back-annotate-failed:{}", err_code(&e.to_string())), format!("adding the back-transposed annotations failed: {}", e));
+                    continue;
+                }
+                Ok(Ok(h)) => h,
+            };
+            let back = catch(|| hs.iter().filter_map(|h| inspect(&store, *h)).collect::<Vec<Ann>>());
+            let back = match back {
+                Ok(b) => b,
+                Err(p) => {
+                    out.sym(format!("back-inspect-panic:{}", panic_code(&p)), format!("reading the back-transposed annotations panicked: {}", p));
+                    continue;
+                }
+            };
+            let in_src: Vec<Vec<R>> = back
+                .iter()
+                .filter(|a| a.marker == 0 && !a.pieces.is_empty() && a.pieces.iter().all(|p| p.res == rid(s)))
+                .map(|a| a.pieces.iter().map(|p| p.r).collect())
+                .collect();
+            out.note(|| format!("back-transposition of side {}: annotations in {} select {:?}", t, rid(s), in_src));
+            // with overlapping source ranges the new transposition has overlapping fragments and the
+            // segmentation of the way back is not determined: compare as codepoint sequences then
+            let disjoint = case.source.iter().enumerate().all(|(i, a)| case.source.iter().skip(i + 1).all(|b| a.1 <= b.0 || b.1 <= a.0));
+            let same = in_src.len() == 1 && if disjoint { in_src[0] == src_ranges } else { flatten(&in_src[0]) == flatten(&src_ranges) };
+            if !same {
+                out.sym(
+                    "back-offsets",
+                    format!("transposing side {} back over NT gives {:?} in {}, the original offsets are {:?}", t, in_src, rid(s), src_ranges),
+                );
+            }
+        }
+    }
+    out
+}
+
+// ------------------------------------------------------------------------------------------------
+// minimisation of failing cases
+// ------------------------------------------------------------------------------------------------
+
+fn candidates(case: &Case) -> Vec<Case> {
+    let mut v = Vec::new();
+    let w = &case.world;
+    let n = w.sides.len();
+    // drop a source range
+    if case.source.len() > 1 {
+        for j in 0..case.source.len() {
+            let mut c = case.clone();
+            c.source.remove(j);
+            v.push(c);
+        }
+    }
+    // simplify the configuration
+    let cfg = case.cfg;
+    if cfg.form != Form::AnnId {
+        v.push(Case { cfg: Cfg { form: Form::AnnId, ..cfg }, ..case.clone() });
+    }
+    if cfg.allow_simple {
+        v.push(Case { cfg: Cfg { allow_simple: false, ..cfg }, ..case.clone() });
+    }
+    if cfg.no_transposition {
+        v.push(Case { cfg: Cfg { no_transposition: false, ..cfg }, ..case.clone() });
+    }
+    if cfg.no_resegmentation {
+        v.push(Case { cfg: Cfg { no_resegmentation: false, ..cfg }, ..case.clone() });
+    }
+    if cfg.side == SideMode::Index {
+        v.push(Case { cfg: Cfg { side: SideMode::Auto, ..cfg }, ..case.clone() });
+    }
+    // drop a side other than the source side
+    if n > 2 {
+        for j in (0..n).rev() {
+            if j == case.src_side {
+                continue;
+            }
+            let mut c = case.clone();
+            c.world.sides.remove(j);
+            if j < case.src_side {
+                c.src_side -= 1;
+            }
+            v.push(c);
+        }
+    }
+    // drop a fragment
+    let k = w.sides[0].frags.len();
+    if !w.simple && k > 1 {
+        for i in 0..k {
+            let mut c = case.clone();
+            for sd in c.world.sides.iter_mut() {
+                sd.frags.remove(i);
+            }
+            v.push(c);
+        }
+    }
+    // shrink a source range by one codepoint at either end
+    for j in 0..case.source.len() {
+        let (b, e) = case.source[j];
+        if e - b > 1 {
+            for r in [(b, e - 1), (b + 1, e)] {
+                let mut c = case.clone();
+                c.source[j] = r;
+                if c.source.len() == 2 && c.source[0] == c.source[1] {
+                    continue;
+                }
+                v.push(c);
+            }
+        }
+    }
+    v
+}
+
+fn case_key(case: &Case, extra: &str) -> u128 {
+    let mut b: Vec<u8> = Vec::with_capacity(96);
+    b.push(case.world.simple as u8);
+    b.push(case.world.sides.len() as u8);
+    for sd in &case.world.sides {
+        b.extend_from_slice(sd.text.as_bytes());
+        b.push(0xff);
+        for f in &sd.frags {
+            b.push(f.0 as u8);
+            b.push(f.1 as u8);
+        }
+        b.push(0xfe);
+    }
+    b.push(case.src_side as u8);
+    for r in &case.source {
+        b.push(r.0 as u8);
+        b.push(r.1 as u8);
+    }
+    b.push(0xfd);
+    let c = &case.cfg;
+    b.push(FORMS.iter().position(|f| *f == c.form).unwrap() as u8);
+    b.push(c.allow_simple as u8 | (c.no_transposition as u8) << 1 | (c.no_resegmentation as u8) << 2);
+    b.push(SIDEMODES.iter().position(|f| *f == c.side).unwrap() as u8);
+    b.extend_from_slice(extra.as_bytes());
+    crate::util::key128(&b)
+}
+
+const SHARDS: usize = 256;
+
+/// Memo tables used only while minimising failing cases (many failing cases shrink along the same path)
+pub struct Caches {
+    eval: Vec<Mutex<HashMap<u128, Arc<Vec<(String, String)>>>>>,
+    mini: Vec<Mutex<HashMap<u128, Arc<(Case, String)>>>>,
+}
+
+impl Caches {
+    pub fn new() -> Self {
+        Caches {
+            eval: (0..SHARDS).map(|_| Mutex::new(HashMap::new())).collect(),
+            mini: (0..SHARDS).map(|_| Mutex::new(HashMap::new())).collect(),
+        }
+    }
+    fn symptoms(&self, case: &Case, calls: &AtomicU64) -> Arc<Vec<(String, String)>> {
+        let k = case_key(case, "");
+        let shard = &self.eval[(k as usize) % SHARDS];
+        if let Some(v) = shard.lock().unwrap().get(&k) {
+            return v.clone();
+        }
+        let o = evaluate(case, false);
+        calls.fetch_add(o.calls, Ordering::Relaxed);
+        let v = Arc::new(o.symptoms);
+        shard.lock().unwrap().insert(k, v.clone());
+        v
+    }
+}
+
+/// Greedy minimisation: apply the first simplification under which the same symptom persists, repeat.
+fn minimise(case: &Case, symptom: &str, detail: &str, caches: &Caches, calls: &AtomicU64) -> Arc<(Case, String)> {
+    let mut cur = case.clone();
+    let mut detail = detail.to_string();
+    let mut path: Vec<u128> = Vec::new();
+    let result: Arc<(Case, String)> = 'outer: loop {
+        let k = case_key(&cur, symptom);
+        if let Some(hit) = caches.mini[(k as usize) % SHARDS].lock().unwrap().get(&k) {
+            break hit.clone();
+        }
+        path.push(k);
+        for c in candidates(&cur) {
+            let syms = caches.symptoms(&c, calls);
+            if let Some((_, d)) = syms.iter().find(|(s, _)| s == symptom) {
+                cur = c;
+                detail = d.clone();
+                continue 'outer;
+            }
+        }
+        break Arc::new((cur, detail));
+    };
+    for k in path {
+        caches.mini[(k as usize) % SHARDS].lock().unwrap().insert(k, result.clone());
+    }
+    result
+}
+
+fn signature(case: &Case, symptom: &str) -> String {
+    if case.cfg.side == SideMode::WrongIndex {
+        // the source does not lie in the named side at all: its alignment with the fragments is immaterial
+        let w = &case.world;
+        let sh = if w.simple { "simple" } else { "complex" };
+        return format!("{}|any|{}|{}", sh, case.cfg.name(), symptom);
+    }
+    format!("{}|{}|{}|{}", shape(case), align(case), case.cfg.name(), symptom)
+}
+
+struct Stats {
+    cases: AtomicU64,
+    calls: AtomicU64,
+    ok_path: AtomicU64,
+    rejected: AtomicU64,
+    failing: AtomicU64,
+}
+
+fn check_case(rep: &Reporter, case: &Case, stats: &Stats, caches: &Caches) {
+    let o = evaluate(case, false);
+    stats.cases.fetch_add(1, Ordering::Relaxed);
+    stats.calls.fetch_add(o.calls, Ordering::Relaxed);
+    if o.ok_path {
+        stats.ok_path.fetch_add(1, Ordering::Relaxed);
+    }
+    if o.rejected {
+        stats.rejected.fetch_add(1, Ordering::Relaxed);
+    }
+    if o.symptoms.is_empty() {
+        return;
+    }
+    stats.failing.fetch_add(1, Ordering::Relaxed);
+    for (sym, detail) in &o.symptoms {
+        let m = minimise(case, sym, detail, caches, &stats.calls);
+        let (min, d) = (&m.0, &m.1);
+        let sig = signature(min, sym);
+        rep.fail(&sig, min.ord(), || format!("{}: {}", min.describe(), d), || min.to_json());
+    }
+}
+
+// ------------------------------------------------------------------------------------------------
+// the enumerated space
+// ------------------------------------------------------------------------------------------------
+
+fn nonempty_ranges(len: usize) -> Vec<R> {
+    let mut v = Vec::new();
+    for b in 0..len {
+        for e in b + 1..=len {
+            v.push((b, e));
+        }
+    }
+    v
+}
+
+/// all sets of k pairwise disjoint non-empty ranges within 0..len, in ascending textual order
+fn disjoint_sets(len: usize, k: usize) -> Vec<Vec<R>> {
+    fn rec(len: usize, k: usize, from: usize, cur: &mut Vec<R>, out: &mut Vec<Vec<R>>) {
+        if cur.len() == k {
+            out.push(cur.clone());
+            return;
+        }
+        for b in from..len {
+            for e in b + 1..=len {
+                cur.push((b, e));
+                rec(len, k, e, cur, out);
+                cur.pop();
+            }
+        }
+    }
+    let mut out = Vec::new();
+    rec(len, k, 0, &mut Vec::new(), &mut out);
+    out
+}
+
+fn perms(k: usize) -> Vec<Vec<usize>> {
+    fn rec(k: usize, cur: &mut Vec<usize>, out: &mut Vec<Vec<usize>>) {
+        if cur.len() == k {
+            out.push(cur.clone());
+            return;
+        }
+        for i in 0..k {
+            if !cur.contains(&i) {
+                cur.push(i);
+                rec(k, cur, out);
+                cur.pop();
+            }
+        }
+    }
+    let mut out = Vec::new();
+    rec(k, &mut Vec::new(), &mut out);
+    out
+}
+
+/// Build a further side: the fragments (given by listing index) are laid out in positional order
+/// `order`, each preceded by `gap` filler characters, plus `gap` trailing filler characters.
+fn arrange(text0: &str, listing: &[R], order: &[usize], gap: usize, filler: char) -> Side {
+    let mut text = String::new();
+    let mut pos = 0usize;
+    let mut frags = vec![(0, 0); listing.len()];
+    for li in order {
+        for _ in 0..gap {
+            text.push(filler);
+            pos += 1;
+        }
+        let f = listing[*li];
+        let piece = char_slice(text0, f.0, f.1);
+        let l = f.1 - f.0;
+        text.push_str(&piece);
+        frags[*li] = (pos, pos + l);
+        pos += l;
+    }
+    for _ in 0..gap {
+        text.push(filler);
+    }
+    Side { text, frags }
+}
+
+pub struct WorldSpace {
+    pub text0: &'static str,
+    pub maxk: usize,
+    /// 3-sided worlds are built for fragment counts up to this
+    pub maxk3: usize,
+    pub gaps: &'static [usize],
+    /// gap widths used for worlds with three fragments
+    pub gaps_k3: &'static [usize],
+    pub fillers: (char, char),
+}
+
+fn worlds(sp: &WorldSpace) -> Vec<World> {
+    let len = sp.text0.chars().count();
+    let mut out = Vec::new();
+    for k in 1..=sp.maxk {
+        for set in disjoint_sets(len, k) {
+            for sigma in perms(k) {
+                let listing: Vec<R> = sigma.iter().map(|i| set[*i]).collect();
+                for pi in perms(k) {
+                    for gap in if k >= 3 { sp.gaps_k3 } else { sp.gaps } {
+                        let side0 = Side { text: sp.text0.to_string(), frags: listing.clone() };
+                        let side1 = arrange(sp.text0, &listing, &pi, *gap, sp.fillers.0);
+                        let rev: Vec<usize> = pi.iter().rev().copied().collect();
+                        let side2 = arrange(sp.text0, &listing, &rev, 1 - *gap, sp.fillers.1);
+                        let kinds: &[bool] = if k == 1 { &[true, false] } else { &[false] };
+                        for simple in kinds {
+                            out.push(World { simple: *simple, sides: vec![side0.clone(), side1.clone()] });
+                            if k <= sp.maxk3 {
+                                out.push(World { simple: *simple, sides: vec![side0.clone(), side1.clone(), side2.clone()] });
+                            }
+                        }
+                    }
+                }
+            }
+        }
+    }
+    out
+}
+
+/// configurations of the geometry sweep: the base configuration and every configuration that differs
+/// from it in exactly one switch
+fn cfgs_onestep() -> Vec<Cfg> {
+    let b = Cfg::BASE;
+    vec![
+        b,
+        Cfg { allow_simple: true, ..b },
+        Cfg { no_transposition: true, ..b },
+        Cfg { no_resegmentation: true, ..b },
+        Cfg { form: Form::AnnNoId, ..b },
+        Cfg { form: Form::TSet, ..b },
+        Cfg { form: Form::TSetNewId, ..b },
+        Cfg { form: Form::TSetExisting, ..b },
+        Cfg { side: SideMode::Index, ..b },
+        Cfg { side: SideMode::WrongIndex, ..b },
+    ]
+}
+
+fn cfgs_pairs() -> Vec<Cfg> {
+    let b = Cfg::BASE;
+    vec![b, Cfg { form: Form::TSet, ..b }, Cfg { no_transposition: true, ..b }]
+}
+
+fn cfgs_all() -> Vec<Cfg> {
+    let mut v = Vec::new();
+    for form in FORMS {
+        for allow_simple in [false, true] {
+            for no_transposition in [false, true] {
+                for no_resegmentation in [false, true] {
+                    for side in SIDEMODES {
+                        v.push(Cfg { form, allow_simple, no_transposition, no_resegmentation, side });
+                    }
+                }
+            }
+        }
+    }
+    v
+}
+
+struct Part {
+    name: &'static str,
+    space: WorldSpace,
+    /// configurations applied to single-range sources
+    cfg_single: Vec<Cfg>,
+    /// configurations applied to two-range sources (side 0 only)
+    cfg_pair: Vec<Cfg>,
+    /// sources in the other sides (single ranges) as well
+    other_sides: bool,
+}
+
+fn parts(tier: Tier) -> Vec<Part> {
+    let b = Cfg::BASE;
+    match tier {
+        Tier::Quick => vec![
+            Part {
+                name: "geometry",
+                space: WorldSpace { text0: "abcde", maxk: 3, maxk3: 2, gaps: &[0, 1], gaps_k3: &[0], fillers: ('-', '=') },
+                cfg_single: cfgs_onestep(),
+                cfg_pair: vec![b, Cfg { form: Form::TSet, ..b }],
+                other_sides: true,
+            },
+            Part {
+                name: "configuration",
+                space: WorldSpace { text0: "abc", maxk: 2, maxk3: 2, gaps: &[1], gaps_k3: &[1], fillers: ('-', '=') },
+                cfg_single: cfgs_all(),
+                cfg_pair: cfgs_all(),
+                other_sides: false,
+            },
+            Part {
+                name: "multibyte",
+                space: WorldSpace { text0: "a\u{e9}\u{1d11e}d", maxk: 2, maxk3: 0, gaps: &[1], gaps_k3: &[1], fillers: ('\u{2013}', '\u{df}') },
+                cfg_single: vec![b, Cfg { form: Form::TSet, ..b }],
+                cfg_pair: vec![b],
+                other_sides: true,
+            },
+        ],
+        Tier::Thorough => vec![
+            Part {
+                name: "geometry",
+                space: WorldSpace { text0: "abcdef", maxk: 3, maxk3: 2, gaps: &[0, 1], gaps_k3: &[0, 1], fillers: ('-', '=') },
+                cfg_single: cfgs_onestep(),
+                cfg_pair: cfgs_pairs(),
+                other_sides: true,
+            },
+            Part {
+                name: "geometry-three-sided",
+                space: WorldSpace { text0: "abcde", maxk: 3, maxk3: 3, gaps: &[0, 1], gaps_k3: &[0, 1], fillers: ('-', '=') },
+                cfg_single: cfgs_onestep(),
+                cfg_pair: cfgs_pairs(),
+                other_sides: true,
+            },
+            Part {
+                name: "configuration",
+                space: WorldSpace { text0: "abcd", maxk: 2, maxk3: 2, gaps: &[0, 1], gaps_k3: &[0, 1], fillers: ('-', '=') },
+                cfg_single: cfgs_all(),
+                cfg_pair: cfgs_all(),
+                other_sides: true,
+            },
+            Part {
+                name: "multibyte",
+                space: WorldSpace { text0: "a\u{e9}\u{1d11e}d\u{df}", maxk: 2, maxk3: 2, gaps: &[0, 1], gaps_k3: &[0, 1], fillers: ('\u{2013}', '\u{1f600}') },
+                cfg_single: cfgs_onestep(),
+                cfg_pair: cfgs_pairs(),
+                other_sides: true,
+            },
+        ],
+    }
+}
+
+/// all cases of one world
+fn cases_of(world: &World, part: &Part) -> Vec<Case> {
+    let mut v = Vec::new();
+    let n = world.sides.len();
+    for s in 0..n {
+        if s > 0 && !part.other_sides {
+            break;
+        }
+        let len = world.sides[s].text.chars().count();
+        for source in crate::util::all_ranges(len) {
+            for cfg in &part.cfg_single {
+                v.push(Case { world: world.clone(), src_side: s, source: vec![source], cfg: *cfg });
+            }
+        }
+        if s == 0 {
+            let rs = nonempty_ranges(len);
+            for a in &rs {
+                for b in &rs {
+                    if a == b {
+                        continue;
+                    }
+                    for cfg in &part.cfg_pair {
+                        v.push(Case { world: world.clone(), src_side: 0, source: vec![*a, *b], cfg: *cfg });
+                    }
+                }
+            }
+        }
+    }
+    v
+}
+
+pub fn run(rep: &Reporter) -> Coverage {
+    let stats = Stats {
+        cases: AtomicU64::new(0),
+        calls: AtomicU64::new(0),
+        ok_path: AtomicU64::new(0),
+        rejected: AtomicU64::new(0),
+        failing: AtomicU64::new(0),
+    };
+    let mut space = Vec::new();
+    let mut samples = Vec::new();
+    let caches = Caches::new();
+    for part in parts(rep.tier) {
+        let ws = worlds(&part.space);
+        let before = stats.cases.load(Ordering::Relaxed);
+        ws.par_iter().for_each(|w| {
+            for case in cases_of(w, &part) {
+                check_case(rep, &case, &stats, &caches);
+            }
+        });
+        let ncases = stats.cases.load(Ordering::Relaxed) - before;
+        space.push(json!({
+            "part": part.name,
+            "source_text": part.space.text0,
+            "fragments_per_side": format!("1..={}", part.space.maxk),
+            "three_sided_up_to_fragments": part.space.maxk3,
+            "gap_widths_in_target": part.space.gaps,
+            "gap_widths_in_target_three_fragments": part.space.gaps_k3,
+            "worlds": ws.len(),
+            "configurations_single_range": part.cfg_single.len(),
+            "configurations_two_ranges": part.cfg_pair.len(),
+            "sources_in_other_sides": part.other_sides,
+            "cases": ncases,
+        }));
+        if let Some(w) = ws.get(ws.len() / 2) {
+            let cs = cases_of(w, &part);
+            samples.push(cs[cs.len() / 3].to_json());
+            samples.push(cs[cs.len() - 1].to_json());
+        }
+        eprintln!(
+            "C16 part {}: {} worlds, {} cases, t={:.1}s (so far: {} accepted+checked, {} rejected, {} with symptoms)",
+            part.name,
+            ws.len(),
+            ncases,
+            rep.elapsed(),
+            stats.ok_path.load(Ordering::Relaxed),
+            stats.rejected.load(Ordering::Relaxed),
+            stats.failing.load(Ordering::Relaxed)
+        );
+    }
+    let mut cov = Coverage::default();
+    cov.states = stats.cases.load(Ordering::Relaxed);
+    cov.transitions = stats.calls.load(Ordering::Relaxed);
+    cov.evaluations = cov.transitions;
+    cov.traces_validated = cov.states;
+    cov.distinct_nontrivial = stats.ok_path.load(Ordering::Relaxed);
+    cov.rule = "world = source text x every set of 1..k pairwise disjoint non-empty fragments x every listing order x every positional order of the fragments in the second text x gap width (filler characters around the fragments) x {2,3} sides x {simple (k=1), complex}; case = world x source side x every range [b,e) of that side's text (side 0 also: every ordered pair of distinct non-empty ranges) x configuration (form of the source x allow_simple x no_transposition x no_resegmentation x source_side mode); states = cases, transitions = calls of transpose / annotate_from_iter (including those made while minimising failing cases); non-trivial = cases in which transpose returned Ok on a source that the oracle does not call uncovered, so that the resource / piecewise text / offset / identical-sides obligations were evaluated on the stored result (and, when these hold, the back-transposition)".into();
+    cov.samples = samples;
+    cov.exhaustive = true;
+    cov.extra.insert("space".into(), Value::Array(space));
+    cov.extra.insert("cases_rejected_by_transpose".into(), json!(stats.rejected.load(Ordering::Relaxed)));
+    cov.extra.insert("cases_with_symptoms".into(), json!(stats.failing.load(Ordering::Relaxed)));
+    cov.assumptions = vec![
+        "fragments of one side are pairwise disjoint and non-empty, every side lies in its own resource; 'covered' = every codepoint of every source range lies in a fragment of the source side".into(),
+        "a covered source must be accepted (rustdoc of Transposable::transpose: 'any annotations within the bounds of such a mapping can then be transposed'); an uncovered one must be rejected (property statement)".into(),
+        "TranspositionSide::ByIndex naming a side in another resource counts as 'not covered'".into(),
+        "zero-width sources: acceptance/rejection is unspecified; only the obligations on a successful result are checked".into(),
+        "'store unchanged' is compared on the full internal dump (verif_dump) for the base configuration and on the item counts for the other configurations (transpose takes &self)".into(),
+        "transposing back: exact offsets are required when the source ranges are pairwise disjoint; for overlapping source ranges (the new transposition then has overlapping fragments) the codepoint sequence must be the original one".into(),
+        "the segmentation of a re-segmented source is not prescribed: source and target sides are compared as codepoint sequences in order, plus piece-by-piece text equality between the sides that were returned".into(),
+        "whether a needless resegmentation annotation is produced, which ids copies get, and copying of annotation data are not checked".into(),
+        "TransposeConfig::debug is left off (it only adds stderr output and an internal self-check)".into(),
+    ];
+    cov
+}
+
+/// Re-execute one recorded case without the sweep.
+pub fn replay(rep: &Reporter, case: &Value) {
+    let case = match Case::from_json(case) {
+        Some(c) => c,
+        None => {
+            println!("replay C16: cannot parse case");
+            return;
+        }
+    };
+    println!("replay C16: {}", case.describe());
+    println!("  oracle: {:?}", expectation(&case));
+    let o = evaluate(&case, true);
+    for t in &o.trace {
+        println!("  {}", t);
+    }
+    if o.symptoms.is_empty() {
+        println!("  no symptom: the case satisfies the property");
+    }
+    for (sym, detail) in &o.symptoms {
+        println!("  SYMPTOM {}: {}", sym, detail);
+        let sig = signature(&case, sym);
+        rep.fail(&sig, case.ord(), || format!("{}: {}", case.describe(), detail), || case.to_json());
+    }
+}
